@@ -6,7 +6,7 @@ import itertools
 
 from .. import efg as _efg
 from ..pyfacts import AnalysisError, src
-from ..genfacts import GenFacts, GEN, ASM
+from ..genfacts import new_codegen, GenFacts, GEN, ASM
 from ..consteval import Interp
 from ..report import Remap
 from .. import forms as F
@@ -59,7 +59,7 @@ def _make_global(repo, chk, gf):
     AT = A.ArrayType
 
     def fresh(ws):
-        g = object.__new__(CG)
+        g = new_codegen(CG)
         g.word_size = ws
         g.stack = ns['StackPoint']()
         g.state_data, g.const_data, g.numbered_labels, g.string_labels = {}, {}, {}, {}
@@ -161,6 +161,29 @@ def _make_global(repo, chk, gf):
                 ok = (getattr(d.items[0], 'data', None) - item) % (M + 1) == 0
             chk.expect(ok, 'C13.B3', key, f'mutable: {type(acc).__name__} over {type(d).__name__ if d is not None else None}'
                        f'{items(d) if d is not None else ""}; constant: {imm!r}', GEN)
+    # several constants in one compilation: each reference leads to storage of ITS directive kind and items, whatever
+    # else was materialised before (constants of different element width with equal numeric items must not share a label)
+    for ws in (2, 3):
+        g = fresh(ws)
+        seq = [('int', AT(DT.INT, True), (A.IntValue(72, span), A.IntValue(105, span), A.IntValue(33, span)), 'WordDirective'),
+               ('byte', AT(DT.BYTE, True), (A.ByteValue(72, span), A.ByteValue(105, span), A.ByteValue(33, span)), 'ByteDirective'),
+               ('int again', AT(DT.INT, True), (A.IntValue(72, span), A.IntValue(105, span), A.IntValue(33, span)), 'WordDirective'),
+               ('bool', AT(DT.BOOL, True), (A.BoolValue(True, span),), 'ByteDirective'),
+               ('byte 1', AT(DT.BYTE, True), (A.ByteValue(1, span),), 'ByteDirective'),
+               ('int 1', AT(DT.INT, True), (A.IntValue(1, span),), 'WordDirective')]
+        bad = None
+        try:
+            for label, T, vals, want_dir in seq:
+                ref = g.make_global(A.ArrayLiteral(vals, span).coerce(T), True)
+                d = g.const_data.get(ref.origin)
+                if d is None or type(d).__name__ != want_dir or len(d.items) != (len(vals) if T.el_type != DT.BOOL else 1) or \
+                        ref.type.el_type != T.el_type or getattr(ref.length, 'data', None) != len(vals):
+                    bad = bad or (f'{label} constant {[getattr(v, "data", None) for v in vals]} after the previous ones: stored as '
+                                  f'{type(d).__name__ if d is not None else None}{items(d) if d is not None else ""} under {ref.origin}')
+                n += 1
+        except Exception as e:      # noqa: BLE001
+            bad = bad or f'{type(e).__name__}: {e}'
+        chk.expect(bad is None, 'C13.B3', f'make_global: several constants in one compilation, w={ws}', bad or '', GEN)
     chk.floor('make_global evaluations', n, 100)
 
 
@@ -315,6 +338,12 @@ def run(repo, chk):
         good = good and all([src(a) for a in e.args] == ['self.r0', 'element', 'asm.IntLiteral(i)'] for e in asl)
         orr = [e for e in ev if e.kind == 'emit' and e.ctor == 'asm.Or']
         good = good and all([src(a) for a in e.args] == ['self.r1', 'prev', 'element'] for e in orr)
+        # every run-time element is merged into what the byte already holds (the pre-packed constant bits and the earlier
+        # run-time bits): one Or per evaluated element, and nothing else writes the accumulator register
+        evals = [e for e in ev if e.kind == 'sub' and e.func == 'self.get_expr_value' and len(e.args) > 1 and src(e.args[1]) == 'el_expr']
+        other_writes = [e for e in ev if e.kind == 'emit' and e.ctor in ('asm.Mov', 'asm.Add', 'asm.Xor', 'asm.And') and e.args
+                        and src(e.args[0]) == 'self.r1']
+        good = good and len(orr) == len(evals) and not other_writes
         st = [e for e in ev if e.kind == 'emit' and e.ctor == 'asm.Sbso']
         good = good and all([src(a) for a in e.args] == ['asm.State(self.ap)', 'asm.IntLiteral(offset)', 'prev'] for e in st)
         fnd = [src(e.value) for e in ev if e.kind == 'assign' and e.target == 'foundation']
@@ -370,7 +399,7 @@ def run(repo, chk):
     for ws in (2, 4):
         for const in (True, False):
             for dt in (DTs.INT, DTs.BYTE, DTs.BOOL):
-                g = object.__new__(CG)
+                g = new_codegen(CG)
                 g.word_size = ws
                 g.const_data, g.state_data, g.numbered_labels = {}, {}, {}
                 directive = object()
